@@ -34,7 +34,9 @@ const (
 	inBase      = 65536
 	outBase     = inBase + chunkTuples*48
 	expOff      = chunkTuples * 16 // consumer forms: expected bits of tuple i at outBase+expOff+16*i
-	pmPages     = (outBase+2*chunkTuples*16)/65536 + 1
+	rSlotP      = 64               // form R, P-style: result + up to 3 operand copies
+	rSlotM      = 128              // form R, M-style: result + operand copies stored after the op + copies stored before it
+	pmPages     = (outBase+chunkTuples*rSlotM)/65536 + 1
 	cPerFunc    = 32  // tuples per straight-line consumer function (15 instruction instances each)
 	cStride     = 8   // form Kc takes every cStride-th tuple of form K
 	kPerFunc    = 256 // tuples per straight-line K function
@@ -356,6 +358,7 @@ func run(c *core.Ctx) int {
 	c.Assume("extra forms: Kl/Kr (only the first / only the last operand constant) for instructions with >=2 operands; Mxx (one loaded value as both operands) for binary instructions with equal operand types; Mif/Mbr/Msel (0/1 result consumed by if / br_if / select) for tests, comparisons, any_true/all_true; they count as required for the rows they apply to")
 	c.Assume("consumer forms Kc/Mc (required for every row with an i32 or f32 result): the result is consumed inside the guest by i32.ne/eq/lt_u/ge_u/gt_u/le_u/lt_s, i64.extend_i32_u/s+i64.eq, xor+eqz, and after passing through a local, a global, a call parameter and select, against the expected bits from refsem (f32 via i32.reinterpret_f32); results with spec-open NaN bits are skipped")
 	c.Assume("pair forms P2/M2: one function body applies two different rows (both results checked); every row must occur as first and as second instruction on both engines; partners: all rows of the same class and operand shape (quick: all if the group has <=4 rows, else 4 by PRNG), plus rows of the same class with another shape and arbitrary rows by PRNG; trapping operand tuples are not used in pair forms")
+	c.Assume("form R (operand preservation, required for every row): r = op(x, y, ..) on non-constant operands, then every operand is read again from the same param/local after the instruction: (a) multi-value function (result r x y ..) called from a guest loop and through the Go API, (b) guest loop with operands in locals, stored once before the instruction (value live in a register) and once after it; r must satisfy refsem and every operand copy must be bit-identical; every 4th tuple for segments above 65536 tuples, all tuples otherwise; trapping tuples excluded")
 	c.Assume("form K bakes a strided subset of each segment as constants (all tuples for 8-bit and unary 16-bit exhaustive segments); forms P and M run every tuple")
 	code := c.Finish(evals, int64(c.DistinctN("opcodes_covered")),
 		"one evaluation = one executed instruction instance (engine, form, immediate, operand tuple) compared with refsem; distinct = table rows exercised in all three forms on both engines (all lane immediates for lane ops)")
@@ -381,6 +384,7 @@ func requiredForms(op *wops.Op) []string {
 	if consumerForm(op) {
 		out = append(out, "Kc", "Mc")
 	}
+	out = append(out, "R")
 	return out
 }
 
@@ -632,6 +636,71 @@ func buildPM(op *wops.Op, imms [][]byte) []byte {
 			}
 			m.ExportFunc(sprintf("%s%d", v, k), m.AddFunc(loopSig, nil, locals, lc.B))
 		}
+		// ---- form R (operand preservation): the operands are read again from the same
+		// params/locals after the instruction and must be unchanged.
+		rc := &wenc.Code{}
+		for i := 0; i < ar; i++ {
+			rc.LocalGet(uint32(i))
+		}
+		op.Emit(rc, imm)
+		for i := 0; i < ar; i++ {
+			rc.LocalGet(uint32(i))
+		}
+		rc.End()
+		rResults := append(op.ResultTypes(), op.ParamTypes()...)
+		rIdx := m.AddFunc(op.ParamTypes(), rResults, nil, rc.B)
+		m.ExportFunc(sprintf("r%d", k), rIdx)
+		loopTail := func(lc *wenc.Code, slot int32) {
+			lc.LocalGet(0).I32Const(stride).Op(0x6a).LocalSet(0)
+			lc.LocalGet(1).I32Const(slot).Op(0x6a).LocalSet(1)
+			lc.LocalGet(2).I32Const(1).Op(0x6b).LocalTee(2)
+			lc.BrIf(0).End().End()
+		}
+		// rl<k>: P-style through the multi-value function
+		lc := &wenc.Code{}
+		lc.Loop(0x40)
+		for i := 0; i < ar; i++ {
+			lc.LocalGet(0)
+			loadOp(lc, op.Params[i], uint32(16*i))
+		}
+		lc.Call(rIdx)
+		for i := ar - 1; i >= 0; i-- {
+			lc.LocalSet(uint32(4 + i))
+		}
+		lc.LocalSet(3)
+		lc.LocalGet(1).LocalGet(3)
+		storeOp(lc, op.Result, 0)
+		for i := 0; i < ar; i++ {
+			lc.LocalGet(1).LocalGet(uint32(4 + i))
+			storeOp(lc, op.Params[i], uint32(16*(1+i)))
+		}
+		loopTail(lc, rSlotP)
+		m.ExportFunc(sprintf("rl%d", k), m.AddFunc(loopSig, nil, rResults, lc.B))
+		// rm<k>: M-style: operands loaded into locals, stored once before the instruction
+		// (so the value is live in a register) and again after it
+		lc = &wenc.Code{}
+		lc.Loop(0x40)
+		for i := 0; i < ar; i++ {
+			lc.LocalGet(0)
+			loadOp(lc, op.Params[i], uint32(16*i))
+			lc.LocalSet(uint32(3 + i))
+		}
+		for i := 0; i < ar; i++ {
+			lc.LocalGet(1).LocalGet(uint32(3 + i))
+			storeOp(lc, op.Params[i], uint32(16*(4+i)))
+		}
+		lc.LocalGet(1)
+		for i := 0; i < ar; i++ {
+			lc.LocalGet(uint32(3 + i))
+		}
+		op.Emit(lc, imm)
+		storeOp(lc, op.Result, 0)
+		for i := 0; i < ar; i++ {
+			lc.LocalGet(1).LocalGet(uint32(3 + i))
+			storeOp(lc, op.Params[i], uint32(16*(1+i)))
+		}
+		loopTail(lc, rSlotM)
+		m.ExportFunc(sprintf("rm%d", k), m.AddFunc(loopSig, nil, op.ParamTypes(), lc.B))
 	}
 	return m.Encode()
 }
@@ -1068,6 +1137,91 @@ func (rn *runner) runImm(k int, imm []byte, tuples []tuple, sg seg, base int) {
 				rn.checkTrap(e.name, lf.form, imm, tuples[i], refs[i], err, mem)
 				rn.res.Evals[e.name+"/"+lf.form]++
 				rn.res.Traps++
+			}
+		}
+		// ---- form R: operand preservation
+		rstep := 1
+		if sg.n > 65536 {
+			rstep = 4
+		}
+		var rIdxs []int
+		for _, i := range okIdx {
+			if (base+i)%rstep == 0 {
+				rIdxs = append(rIdxs, i)
+			}
+		}
+		if len(rIdxs) > 0 {
+			rbuf := make([]byte, len(rIdxs)*stride)
+			for j, i := range rIdxs {
+				for p := 0; p < ar; p++ {
+					putVal(rbuf[j*stride+16*p:], tuples[i][p])
+				}
+			}
+			sameOperand := func(p int, got []byte, want refsem.Val) bool {
+				wb := want.Bytes()
+				nb := op.Params[p].Bytes()
+				return string(got[:nb]) == string(wb[:nb])
+			}
+			for _, rf := range []struct {
+				fn   string
+				slot int
+			}{{"rl", rSlotP}, {"rm", rSlotM}} {
+				mem.Write(inBase, rbuf)
+				if _, err := mod.ExportedFunction(sprintf("%s%d", rf.fn, k)).Call(ctx, inBase, outBase, uint64(len(rIdxs))); err != nil {
+					rn.report(e.name, "R", "wrong-trap", imm, tuples[rIdxs[0]], refs[rIdxs[0]], "error in a batch of tuples (first shown): "+core.Trunc(err.Error(), 200), "")
+					continue
+				}
+				out, _ := mem.Read(outBase, uint32(rf.slot*len(rIdxs)))
+				for j, i := range rIdxs {
+					o := out[rf.slot*j:]
+					rn.check(e.name, "R", imm, tuples[i], refs[i], getVal(o))
+					for p := 0; p < ar; p++ {
+						if !sameOperand(p, o[16*(1+p):], tuples[i][p]) {
+							rn.report(e.name, "R", sprintf("operand-clobbered:%d", p), imm, tuples[i], refs[i],
+								sprintf("result %s, but operand %d read again after the instruction (%s) is %x", fmtVal(op.Result, getVal(o)), p, rf.fn, o[16*(1+p):16*(1+p)+op.Params[p].Bytes()]), "")
+						}
+						if rf.fn == "rm" && !sameOperand(p, o[16*(4+p):], tuples[i][p]) {
+							rn.report(e.name, "R", sprintf("operand-clobbered:%d", p), imm, tuples[i], refs[i],
+								sprintf("operand %d stored BEFORE the instruction is already %x (harness or load problem)", p, o[16*(4+p):16*(4+p)+op.Params[p].Bytes()]), "")
+						}
+					}
+				}
+				rn.res.Evals[e.name+"/R"] += int64(len(rIdxs))
+			}
+			// through the Go API (multi-value results)
+			rfn := mod.ExportedFunction(sprintf("r%d", k))
+			rs := len(rIdxs) / 8
+			if rs < 1 {
+				rs = 1
+			}
+			for j := 0; j < len(rIdxs); j += rs {
+				i := rIdxs[j]
+				argbuf = pushArgs(argbuf, op, tuples[i])
+				out, err := rfn.Call(ctx, argbuf...)
+				if err != nil {
+					rn.report(e.name, "R", "wrong-trap", imm, tuples[i], refs[i], "error: "+core.Trunc(err.Error(), 200), "")
+					continue
+				}
+				q := 0
+				next := func(s wops.Shape) refsem.Val {
+					v := refsem.Val{Lo: out[q]}
+					q++
+					if s.IsVector() {
+						v.Hi = out[q]
+						q++
+					}
+					return v
+				}
+				rn.check(e.name, "R", imm, tuples[i], refs[i], next(op.Result))
+				for p := 0; p < ar; p++ {
+					g := next(op.Params[p])
+					gb := g.Bytes()
+					if !sameOperand(p, gb[:], tuples[i][p]) {
+						rn.report(e.name, "R", sprintf("operand-clobbered:%d", p), imm, tuples[i], refs[i],
+							sprintf("operand %d returned after the instruction through the Go API is %s", p, fmtVal(op.Params[p], g)), "")
+					}
+				}
+				rn.res.Evals[e.name+"/R"]++
 			}
 		}
 		// ---- form Mc: result consumed in the guest together with the expected bits
